@@ -103,3 +103,106 @@ fn('bezpath.rs', 'impl ParamCurveArea for PathSeg', 'signed_area', 'PathSeg.sign
 fn('bezpath.rs', 'impl PathSeg {', 'as_path_el', 'PathSeg.as_path_el', f'(self : {PS}) : PathEl K')
 fn('bezpath.rs', 'impl PathSeg {', 'reverse', 'PathSeg.reverse', f'(self : {PS}) : {PS}')
 fn('bezpath.rs', 'impl PathSeg {', 'to_cubic', 'PathSeg.to_cubic', f'(self : {PS}) : {C}')
+
+# ---------------------------------------------------------------- rect.rs / insets.rs
+for n in ('width', 'height', 'min_x', 'max_x', 'min_y', 'max_y', 'area'):
+    fn('rect.rs', 'impl Rect {', n, f'Rect.{n}', f'(self : {R}) : K')
+fn('rect.rs', 'impl Rect {', 'origin', 'Rect.origin', f'(self : {R}) : {P}')
+fn('rect.rs', 'impl Rect {', 'size', 'Rect.size', f'(self : {R}) : {S}')
+fn('rect.rs', 'impl Rect {', 'center', 'Rect.center', f'(self : {R}) : {P}')
+fn('rect.rs', 'impl Rect {', 'is_zero_area', 'Rect.is_zero_area', f'(self : {R}) : Bool')
+fn('rect.rs', 'impl Rect {', 'contains', 'Rect.contains', f'(self : {R}) (point : {P}) : Bool')
+fn('rect.rs', 'impl Rect {', 'abs', 'Rect.abs', f'(self : {R}) : {R}')
+raw(f'instance : MAbs ({R}) := ⟨Rect.abs⟩')
+fn('rect.rs', 'impl Rect {', 'from_points', 'Rect.from_points', f'(p0 p1 : {P}) : {R}')
+raw(f'/-- `impl From<(Point, Point)> for Rect` -/\ninstance : Coe ({P} × {P}) ({R}) := ⟨fun p => Rect.from_points p.1 p.2⟩')
+fn('rect.rs', 'impl Rect {', 'union', 'Rect.union', f'(self other : {R}) : {R}')
+fn('rect.rs', 'impl Rect {', 'union_pt', 'Rect.union_pt', f'(self : {R}) (pt : {P}) : {R}')
+fn('rect.rs', 'impl Rect {', 'intersect', 'Rect.intersect', f'(self other : {R}) : {R}')
+fn('rect.rs', 'impl Rect {', 'overlaps', 'Rect.overlaps', f'(self other : {R}) : Bool')
+fn('rect.rs', 'impl Rect {', 'contains_rect', 'Rect.contains_rect', f'(self other : {R}) : Bool')
+fn('rect.rs', 'impl Rect {', 'inflate', 'Rect.inflate', f'(self : {R}) (width height : K) : {R}')
+for n in ('round', 'ceil', 'floor', 'expand', 'trunc'):
+    fn('rect.rs', 'impl Rect {', n, f'Rect.{n}', f'(self : {R}) : {R}')
+    raw(f'instance : M{n.capitalize()} ({R}) := ⟨Rect.{n}⟩')
+fn('rect.rs', 'impl Rect {', 'scale_from_origin', 'Rect.scale_from_origin', f'(self : {R}) (factor : K) : {R}')
+fn('rect.rs', 'impl Add<Vec2> for Rect', 'add', 'Rect.add_Vec2', f'(self : {R}) (v : {V}) : {R}')
+raw(f'instance : HAdd ({R}) ({V}) ({R}) := ⟨Rect.add_Vec2⟩')
+fn('rect.rs', 'impl Sub<Vec2> for Rect', 'sub', 'Rect.sub_Vec2', f'(self : {R}) (v : {V}) : {R}')
+raw(f'instance : HSub ({R}) ({V}) ({R}) := ⟨Rect.sub_Vec2⟩')
+fn('rect.rs', 'impl Sub for Rect', 'sub', 'Rect.sub_Rect', f'(self other : {R}) : {I}')
+raw(f'instance : HSub ({R}) ({R}) ({I}) := ⟨Rect.sub_Rect⟩')
+fn('rect.rs', 'impl Shape for Rect', 'perimeter', 'Rect.perimeter', f'(self : {R}) (_accuracy : K) : K')
+fn('rect.rs', 'impl Shape for Rect', 'winding', 'Rect.winding', f'(self : {R}) (pt : {P}) : Int')
+fn('rect.rs', 'impl Shape for Rect', 'bounding_box', 'Rect.bounding_box', f'(self : {R}) : {R}')
+fn('insets.rs', 'impl Neg for Insets', 'neg', 'Insets.neg', f'(self : {I}) : {I}')
+raw(f'instance : Neg ({I}) := ⟨Insets.neg⟩')
+fn('insets.rs', 'impl Add<Rect> for Insets', 'add', 'Insets.add_Rect', f'(self : {I}) (other : {R}) : {R}')
+raw(f'instance : HAdd ({I}) ({R}) ({R}) := ⟨Insets.add_Rect⟩')
+fn('insets.rs', 'impl Add<Insets> for Rect', 'add', 'Rect.add_Insets', f'(self : {R}) (other : {I}) : {R}')
+raw(f'instance : HAdd ({R}) ({I}) ({R}) := ⟨Rect.add_Insets⟩')
+fn('insets.rs', 'impl Sub<Rect> for Insets', 'sub', 'Insets.sub_Rect', f'(self : {I}) (other : {R}) : {R}')
+raw(f'instance : HSub ({I}) ({R}) ({R}) := ⟨Insets.sub_Rect⟩')
+fn('insets.rs', 'impl Sub<Insets> for Rect', 'sub', 'Rect.sub_Insets', f'(self : {R}) (other : {I}) : {R}')
+raw(f'instance : HSub ({R}) ({I}) ({R}) := ⟨Rect.sub_Insets⟩')
+fn('insets.rs', 'impl Insets {', 'x_value', 'Insets.x_value', f'(self : {I}) : K')
+fn('insets.rs', 'impl Insets {', 'y_value', 'Insets.y_value', f'(self : {I}) : K')
+fn('insets.rs', 'impl Insets {', 'size', 'Insets.size', f'(self : {I}) : {S}')
+
+# ---------------------------------------------------------------- affine.rs
+A, TS = 'Affine K', 'TranslateScale K'
+fn('affine.rs', 'impl Mul<Point> for Affine', 'mul', 'Affine.mul_Point', f'(self : {A}) (other : {P}) : {P}')
+raw(f'instance : HMul ({A}) ({P}) ({P}) := ⟨Affine.mul_Point⟩')
+fn('affine.rs', 'impl Mul for Affine', 'mul', 'Affine.mul_Affine', f'(self other : {A}) : {A}')
+raw(f'instance : HMul ({A}) ({A}) ({A}) := ⟨Affine.mul_Affine⟩')
+fn('affine.rs', 'impl Affine {', 'scale', 'Affine.scale', f'(s : K) : {A}')
+fn('affine.rs', 'impl Affine {', 'scale_non_uniform', 'Affine.scale_non_uniform', f'(s_x s_y : K) : {A}')
+fn('affine.rs', 'impl Affine {', 'translate', 'Affine.translate', f'(p : {V}) : {A}')
+fn('affine.rs', 'impl Affine {', 'skew', 'Affine.skew', f'(skew_x skew_y : K) : {A}')
+fn('affine.rs', 'impl Affine {', 'rotate', 'Affine.rotate', f'(th : K) : {A}')
+fn('affine.rs', 'impl Affine {', 'then_translate', 'Affine.then_translate', f'(self : {A}) (trans : {V}) : {A}')
+fn('affine.rs', 'impl Affine {', 'then_rotate', 'Affine.then_rotate', f'(self : {A}) (th : K) : {A}')
+fn('affine.rs', 'impl Affine {', 'then_scale', 'Affine.then_scale', f'(self : {A}) (scale : K) : {A}')
+fn('affine.rs', 'impl Affine {', 'then_scale_non_uniform', 'Affine.then_scale_non_uniform', f'(self : {A}) (scale_x scale_y : K) : {A}')
+fn('affine.rs', 'impl Affine {', 'scale_about', 'Affine.scale_about', f'(s : K) (center : {P}) : {A}')
+fn('affine.rs', 'impl Affine {', 'rotate_about', 'Affine.rotate_about', f'(th : K) (center : {P}) : {A}')
+fn('affine.rs', 'impl Affine {', 'then_rotate_about', 'Affine.then_rotate_about', f'(self : {A}) (th : K) (center : {P}) : {A}')
+fn('affine.rs', 'impl Affine {', 'then_scale_about', 'Affine.then_scale_about', f'(self : {A}) (scale : K) (center : {P}) : {A}')
+fn('affine.rs', 'impl Affine {', 'pre_rotate', 'Affine.pre_rotate', f'(self : {A}) (th : K) : {A}')
+fn('affine.rs', 'impl Affine {', 'pre_rotate_about', 'Affine.pre_rotate_about', f'(self : {A}) (th : K) (center : {P}) : {A}')
+fn('affine.rs', 'impl Affine {', 'pre_scale', 'Affine.pre_scale', f'(self : {A}) (scale : K) : {A}')
+fn('affine.rs', 'impl Affine {', 'pre_scale_non_uniform', 'Affine.pre_scale_non_uniform', f'(self : {A}) (scale_x scale_y : K) : {A}')
+fn('affine.rs', 'impl Affine {', 'pre_translate', 'Affine.pre_translate', f'(self : {A}) (trans : {V}) : {A}')
+fn('affine.rs', 'impl Affine {', 'reflect', 'Affine.reflect', f'(point : {P}) (direction : {V}) : {A}')
+fn('affine.rs', 'impl Affine {', 'map_unit_square', 'Affine.map_unit_square', f'(rect : {R}) : {A}')
+fn('affine.rs', 'impl Affine {', 'determinant', 'Affine.determinant', f'(self : {A}) : K')
+fn('affine.rs', 'impl Affine {', 'inverse', 'Affine.inverse', f'(self : {A}) : {A}')
+fn('affine.rs', 'impl Affine {', 'transform_rect_bbox', 'Affine.transform_rect_bbox', f'(self : {A}) (rect : {R}) : {R}')
+fn('affine.rs', 'impl Affine {', 'translation', 'Affine.translation', f'(self : {A}) : {V}')
+fn('affine.rs', 'impl Affine {', 'with_translation', 'Affine.with_translation', f'(self : {A}) (trans : {V}) : {A}')
+fn('line.rs', 'impl Mul<Line> for Affine', 'mul', 'Affine.mul_Line', f'(self : {A}) (other : {L}) : {L}')
+raw(f'instance : HMul ({A}) ({L}) ({L}) := ⟨Affine.mul_Line⟩')
+fn('quadbez.rs', 'impl Mul<QuadBez> for Affine', 'mul', 'Affine.mul_QuadBez', f'(self : {A}) (other : {Q}) : {Q}')
+raw(f'instance : HMul ({A}) ({Q}) ({Q}) := ⟨Affine.mul_QuadBez⟩')
+fn('cubicbez.rs', 'impl Mul<CubicBez> for Affine', 'mul', 'Affine.mul_CubicBez', f'(self : {A}) (c : {C}) : {C}')
+raw(f'instance : HMul ({A}) ({C}) ({C}) := ⟨Affine.mul_CubicBez⟩')
+fn('bezpath.rs', 'impl Mul<PathSeg> for Affine', 'mul', 'Affine.mul_PathSeg', f'(self : {A}) (other : {PS}) : {PS}')
+raw(f'instance : HMul ({A}) ({PS}) ({PS}) := ⟨Affine.mul_PathSeg⟩')
+fn('bezpath.rs', 'impl Mul<PathEl> for Affine', 'mul', 'Affine.mul_PathEl', f'(self : {A}) (other : PathEl K) : PathEl K')
+raw(f'instance : HMul ({A}) (PathEl K) (PathEl K) := ⟨Affine.mul_PathEl⟩')
+
+# ---------------------------------------------------------------- translate_scale.rs
+fn('translate_scale.rs', 'impl TranslateScale {', 'translate', 'TranslateScale.translate', f'(translation : {V}) : {TS}')
+fn('translate_scale.rs', 'impl TranslateScale {', 'from_scale_about', 'TranslateScale.from_scale_about', f'(scale : K) (focus : {P}) : {TS}')
+fn('translate_scale.rs', 'impl TranslateScale {', 'inverse', 'TranslateScale.inverse', f'(self : {TS}) : {TS}')
+fn('translate_scale.rs', 'impl From<TranslateScale> for Affine', 'from', 'TranslateScale.to_affine', f'(ts : {TS}) : {A}')
+fn('translate_scale.rs', 'impl Mul<Point> for TranslateScale', 'mul', 'TranslateScale.mul_Point', f'(self : {TS}) (other : {P}) : {P}')
+raw(f'instance : HMul ({TS}) ({P}) ({P}) := ⟨TranslateScale.mul_Point⟩')
+fn('translate_scale.rs', 'impl Mul for TranslateScale', 'mul', 'TranslateScale.mul_TranslateScale', f'(self other : {TS}) : {TS}')
+raw(f'instance : HMul ({TS}) ({TS}) ({TS}) := ⟨TranslateScale.mul_TranslateScale⟩')
+fn('translate_scale.rs', 'impl Add<Vec2> for TranslateScale', 'add', 'TranslateScale.add_Vec2', f'(self : {TS}) (other : {V}) : {TS}')
+fn('translate_scale.rs', 'impl Sub<Vec2> for TranslateScale', 'sub', 'TranslateScale.sub_Vec2', f'(self : {TS}) (other : {V}) : {TS}')
+fn('translate_scale.rs', 'impl Mul<Line> for TranslateScale', 'mul', 'TranslateScale.mul_Line', f'(self : {TS}) (other : {L}) : {L}')
+fn('translate_scale.rs', 'impl Mul<Rect> for TranslateScale', 'mul', 'TranslateScale.mul_Rect', f'(self : {TS}) (other : {R}) : {R}')
+fn('translate_scale.rs', 'impl Mul<QuadBez> for TranslateScale', 'mul', 'TranslateScale.mul_QuadBez', f'(self : {TS}) (other : {Q}) : {Q}')
+fn('translate_scale.rs', 'impl Mul<CubicBez> for TranslateScale', 'mul', 'TranslateScale.mul_CubicBez', f'(self : {TS}) (other : {C}) : {C}')
